@@ -184,6 +184,12 @@ class Environment:
             while self._events and not self._terminated:
                 self.step()
         finally:
+            if not self._terminated:
+                # The run was ended by an exception. Its TERMINATE Event
+                # must not stay behind and end a later run early.
+                for event in self._events:
+                    if event.action == self._terminate:
+                        event.cancelled = True
             if self._trace:
                 self._export_trace()
 
